@@ -22,7 +22,7 @@ func c19NumSizes(c *Ctx) int {
 	if c.Tier == "thorough" {
 		return 16
 	}
-	return 2
+	return 3
 }
 
 func c19Size(c *Ctx, k int) uint64 {
@@ -32,9 +32,12 @@ func c19Size(c *Ctx, k int) uint64 {
 		}
 		return c.Rng(int64(k), 0xC19).Next()
 	}
-	// quick: one fixed extreme and one seeded value
+	// quick: the two fixed extremes (a present field holding 0 is not an absent field) and one seeded value
 	if k == 0 {
 		return ^uint64(0)
+	}
+	if k == 1 {
+		return 0
 	}
 	return c.Rng(int64(k), 0xC19).Next()
 }
